@@ -591,6 +591,22 @@ class Effects(object):
                 cfg[p] = v
         return cfg
 
+    def receiver_value(self, a, cls, av, ctx):
+        """The receiver of a method that was resolved to class `cls` is an instance of `cls`.  When it is `Y.copy()` with Y of unknown type - which the generic
+        rule reads as a shallow copy, the worst any `copy` method can be - the copy was made by cls's own `copy`: use what that method returns."""
+        if not (a[0] == 'call' and a[1][0] == 'attr' and a[1][2] == 'copy' and self.type_of(a[1][1], ctx['fi']) is None):
+            return av
+        m = self.P.lookup(cls, 'copy')
+        if m is None:
+            return av
+        tg = [t for t in self._member_targets(m, a[1][1]) if t[0] == 'func' and t[1] is not None]
+        if len(tg) != 1:
+            return av
+        try:
+            return self.call_value_one(a, tg[0][0], tg[0][1], tg[0][2], ctx)
+        except Exception:
+            return av
+
     def call_value(self, call, ctx):
         fi = ctx['fi']
         v = None
@@ -922,6 +938,8 @@ class Effects(object):
                     if a is None or a[0] == 'SELF':
                         continue
                     av = self.absval(a, ctx)
+                    if g.cls is not None and g.params and q == g.params[0] and (meta or {}).get('method') is not False:
+                        av = self.receiver_value(a, g.cls, av, ctx)
                     chain = '%s: %s calls %s(%s=%s)' % (fi.qualname, where, g.qualname.replace('dimarray.', ''), q, T.show(a)[:50])
                     self.apply_kinds(s, fi, cs, q, av, chain)
                 # captures through constructors / helper methods
